@@ -20,7 +20,7 @@ const (
 	sigFinal     = 7
 )
 
-func computeRuleClasses(t *Tables, g *Grammar) []int {
+func computeRuleClasses(t *Tables, g *Grammar, empty container.BitSet) []int {
 	numRules := len(t.RuleLen) // includes Lookaheads
 	ruleClass := make([]int, numRules)
 
@@ -30,6 +30,10 @@ func computeRuleClasses(t *Tables, g *Grammar) []int {
 		action int
 		typ    int
 		flags  string
+
+		// Rules ending with a nullable symbol get their range trimmed under fixWhitespace, so
+		// the generated parser treats them differently from otherwise identical rules.
+		trailingNull bool
 	}
 	ruleToClass := make(map[ruleKey]int)
 
@@ -40,6 +44,12 @@ func computeRuleClasses(t *Tables, g *Grammar) []int {
 			action: r.Action,
 			typ:    r.Type,
 			flags:  strings.Join(r.Flags, ","),
+		}
+		for k := len(r.RHS) - 1; k >= 0; k-- {
+			if !r.RHS[k].IsStateMarker() {
+				key.trailingNull = empty.Get(int(r.RHS[k]))
+				break
+			}
 		}
 		if class, ok := ruleToClass[key]; ok {
 			ruleClass[i] = class
@@ -168,9 +178,9 @@ func refinePartitions(partition []int, partitions *container.IntSliceSet, t *Tab
 
 // minimize tries to compact the automaton by merging equivalent states (lead to the
 // same set of parsing actions for any given input).
-func minimize(t *Tables, g *Grammar) {
+func minimize(t *Tables, g *Grammar, empty container.BitSet) {
 	numStates := t.NumStates
-	ruleClass := computeRuleClasses(t, g)
+	ruleClass := computeRuleClasses(t, g, empty)
 	partition, partitions := partitionStatesByAction(t, ruleClass, numStates)
 	partition, partitions = refinePartitions(partition, partitions, t)
 
